@@ -157,6 +157,7 @@ class CountStream(Stream):
                 raise
             except Exception as ex:
                 outs.append(err_sx(ex))
+                break      # the counter instance is discarded after an exception
         if pl["what"] == "numnodes":
             return outs[0]
         return "(" + " ".join(outs) + ")"
